@@ -8,6 +8,11 @@ Driver glue for C58.
                         final x or b (the handler raises an Exception / a BaseException subclass)
       a trailing `!` on stop / when:… (the Deferred's consumer callback raises) is invisible to the service
       a trailing `^` on stop / when:… : the consumer's callback calls startService() when the Deferred fires
+      cancel:<i>        the CONSUMER cancels the i-th whenConnected Deferred (call order) if it has not fired: `Deferred.cancel()`
+                        errbacks it with CancelledError on the spot and swallows the service's later callback — the service is not
+                        told (its waiter list, counters and state are untouched: the model's `St` does not change), so this is
+                        bookkeeping of the driver: the Deferred shows `x` from now on; if its consumer restarts the service from
+                        its callback (`^`), that callback runs NOW (a plain startService) and never again
   → per event `<outcome>/<ms>;<running>;<conns>;<att>;<timer>;<failedAttempts>;<waiters>;<stops>` joined by `|`
     (`-` for an empty history); outcome `ok|skip|dup|!NoTransition|!H` (`!H`: the application handler's own exception propagated); conns one letter per open connection
     (`o` open, `c` closing); att `p` pending endpoint attempt / `r` pending prepareConnection Deferred;
@@ -68,18 +73,19 @@ def msName : MS → String
 
 def orDash (s : String) : String := if s.isEmpty then "-" else s
 
-def showW (s : St) (i : Nat) : String :=
+def showW (gone : List Nat) (s : St) (i : Nat) : String :=
+  if gone.contains i then "x" else
   match s.fired.find? (fun f => f.1 == i) with
   | none => "p"
   | some (_, .conn c) => "c" ++ toString c
   | some (_, .failed) => "f"
   | some (_, .cancelled) => "x"
 
-def showSnap (s : St) : String :=
+def showSnap (gone : List Nat) (s : St) : String :=
   let conns := String.join (s.conns.map fun c => if c.closing then "c" else "o")
   let att := match s.att with | .none => "" | .pending => "p" | .preparing _ => "r"
   let timer := match s.timer with | none => "-" | some r => toString r
-  let w := ",".intercalate ((List.range s.nwait).map (showW s))
+  let w := ",".intercalate ((List.range s.nwait).map (showW gone s))
   let st := ",".intercalate ((List.range s.nstop).map fun i => if s.stopFired.contains i then "d" else "p")
   ";".intercalate [msName s.ms, (if s.running then "1" else "0"), orDash conns, orDash att, timer,
     toString s.failed, orDash w, orDash st]
@@ -87,13 +93,36 @@ def showSnap (s : St) : String :=
 def showOutcome : Outcome → String
   | .ok => "ok" | .skip => "skip" | .dup => "dup" | .rejected => "!NoTransition" | .raised => "!H"
 
+/-- an event of the history, or the consumer's `cancel()` of a whenConnected Deferred -/
+inductive Tok where
+  | ev (e : EvC)
+  | cancel (i : Nat)
+
+def decTok (s : String) : Option Tok :=
+  match s.splitOn ":" with
+  | ["cancel", i] => i.toNat?.map .cancel
+  | _ => (decEvC s).map .ev
+
+/-- `execC` (same `flag` / `stepC` per event) with the consumer-side bookkeeping of cancelled Deferreds (`gone`) -/
+def go (pol : Nat → Nat) (fl : Flags) (s : St) (gone : List Nat) : List Tok → List String
+  | [] => []
+  | .ev e :: ts =>
+    let fl' := flag fl s e
+    let r := stepC pol fl' s e.ev
+    (showOutcome r.2 ++ "/" ++ showSnap gone r.1) :: go pol fl' r.1 gone ts
+  | .cancel i :: ts =>
+    if s.waiters.any (fun w => w.1 == i) && !gone.contains i then
+      let s' := if fl.w.contains i then stepAct pol s .start else s
+      ("ok/" ++ showSnap (i :: gone) s') :: go pol { fl with w := fl.w.erase i } s' (i :: gone) ts
+    else ("skip/" ++ showSnap gone s) :: go pol fl s gone ts
+
 def handle (args : List String) : String :=
   match args with
   | a :: b :: evs =>
-    match a.toNat?, b.toNat?, evs.mapM decEvC with
-    | some a, some b, some evs =>
-      let tr := execC (fun n => a * n + b) ⟨[], []⟩ init evs
-      if tr.isEmpty then "-" else "|".intercalate (tr.map fun (s, o) => showOutcome o ++ "/" ++ showSnap s)
+    match a.toNat?, b.toNat?, evs.mapM decTok with
+    | some a, some b, some toks =>
+      let tr := go (fun n => a * n + b) ⟨[], []⟩ init [] toks
+      if tr.isEmpty then "-" else "|".intercalate tr
     | _, _, _ => "bad-op"
   | _ => "bad-op"
 
